@@ -28,7 +28,8 @@ def kinds():
     K = []
 
     def add(name, owner, req, res):
-        K.append({"name": name, "owner": owner, "req": req, "res": res})
+        base = {"contact-sync-part": "contact-sync", "contact-sync-delta": "contact-sync", "picture-get-full": "picture-get"}.get(name, name)
+        K.append({"name": name, "base": base, "owner": owner, "req": req, "res": res})
     add("ping", "YowIqProtocolLayer", lambda: PingIqProtocolEntity(to="s.whatsapp.net"), generic)
     add("lastseen", "YowPresenceProtocolLayer", lambda: LastseenIqProtocolEntity(JID),
         lambda i: ResultLastseenIqProtocolEntity(JID, 42, i).toProtocolTreeNode())
@@ -58,6 +59,12 @@ def kinds():
     add("group-demote", "YowGroupsProtocolLayer", lambda: G.DemoteParticipantsIqProtocolEntity(GJID, [JID]), generic)
     add("contact-sync", "YowContactsIqProtocolLayer", lambda: C.GetSyncIqProtocolEntity(["+4912345"]),
         lambda i: C.ResultSyncIqProtocolEntity(i, "1.2", 0, True, "1", {"+4912345": JID}, {}, []).toProtocolTreeNode())
+    # the same requests built with their constructors' other options (a multi-part sync, a delta sync during registration, a full-size picture)
+    add("contact-sync-part", "YowContactsIqProtocolLayer", lambda: C.GetSyncIqProtocolEntity(["+4912345", "+4912346"], index=0, last=False),
+        lambda i: C.ResultSyncIqProtocolEntity(i, "1.2", 0, False, "1", {"+4912345": JID}, {}, []).toProtocolTreeNode())
+    add("contact-sync-delta", "YowContactsIqProtocolLayer", lambda: C.GetSyncIqProtocolEntity(["+4912345"], mode="delta", context="registration", index=1, last=True),
+        lambda i: C.ResultSyncIqProtocolEntity(i, "1.3", 1, True, "2", {"+4912345": JID}, {}, []).toProtocolTreeNode())
+    add("picture-get-full", "YowProfilesProtocolLayer", lambda: PR.GetPictureIqProtocolEntity(JID, preview=False), picture)
     add("media-upload", "YowMediaProtocolLayer", lambda: M.RequestUploadIqProtocolEntity("image", b64Hash="aGFzaA==", size=10),
         lambda i: M.ResultRequestUploadIqProtocolEntity(i, "https://mmg.whatsapp.net/u/1", None, 0, False).toProtocolTreeNode())
     return K
